@@ -107,13 +107,21 @@ func (s *Server) SetScript(sql string, sc Script) {
 }
 
 // Log returns a copy of the received-message log.
-func (s *Server) Log() []Received { s.mu.Lock(); defer s.mu.Unlock(); return append([]Received{}, s.log...) }
+func (s *Server) Log() []Received {
+	s.mu.Lock()
+	defer s.mu.Unlock()
+	return append([]Received{}, s.log...)
+}
 
 // LogLen returns the current length of the received-message log.
 func (s *Server) LogLen() int { s.mu.Lock(); defer s.mu.Unlock(); return len(s.log) }
 
 // SentLog returns a copy of the sent-message log.
-func (s *Server) SentLog() []Sent { s.mu.Lock(); defer s.mu.Unlock(); return append([]Sent{}, s.sent...) }
+func (s *Server) SentLog() []Sent {
+	s.mu.Lock()
+	defer s.mu.Unlock()
+	return append([]Sent{}, s.sent...)
+}
 
 // SentLen returns the current length of the sent-message log.
 func (s *Server) SentLen() int { s.mu.Lock(); defer s.mu.Unlock(); return len(s.sent) }
@@ -122,7 +130,11 @@ func (s *Server) SentLen() int { s.mu.Lock(); defer s.mu.Unlock(); return len(s.
 func (s *Server) Conns() int { s.mu.Lock(); defer s.mu.Unlock(); return s.conns }
 
 // NegotiatedCaps returns client&server capabilities of a connection (1-based).
-func (s *Server) NegotiatedCaps(id int) uint32 { s.mu.Lock(); defer s.mu.Unlock(); return s.negCaps[id] }
+func (s *Server) NegotiatedCaps(id int) uint32 {
+	s.mu.Lock()
+	defer s.mu.Unlock()
+	return s.negCaps[id]
+}
 
 // RawInConn returns every byte received on the given connection (1-based).
 func (s *Server) RawInConn(id int) []byte {
